@@ -205,17 +205,9 @@ class Fuzz:
             if verdict is not None and c03fuzz.in_sds_pipe_class(ops, data, verdict):
                 self.sds_hits.append((name, k, kind, route, data, ops, verdict))
                 verdict = None
-            if verdict is not None and c03fuzz.in_svx_backjump_class(ops, data, verdict):
-                self.extra_hits.setdefault("KF-C03-svx-backjump", []).append((name, k, kind, route, data, ops, verdict))
-                verdict = None
-            if verdict is not None and c03fuzz.in_caf_info_pipe_class(ops, data, verdict):
-                self.extra_hits.setdefault("KF-C03-caf-info-pipe", []).append((name, k, kind, route, data, ops, verdict))
-                verdict = None
+            # (round 4) KF-C03-svx-backjump, KF-C03-caf-info-pipe and KF-C03-pipe-chunk-loop are repaired: no class is waived for them
             if verdict is not None and c03fuzz.in_nist_coding_class(ops, data, verdict):
                 self.nist_hits.append((name, k, kind, route, data, ops, verdict))
-                verdict = None
-            if verdict is not None and c03fuzz.in_svx_pipe_class(ops, data, verdict):
-                self.svx_hits.append((name, k, kind, route, data, ops, verdict))
                 verdict = None
             if len(lines) > 1 and lines[1].startswith("open=ok"):
                 self.stats["open_ok"] += 1
@@ -343,10 +335,14 @@ def regression_scripts(ctx, known):
     here = os.path.dirname(os.path.dirname(os.path.dirname(os.path.abspath(__file__))))
     n = 0
     bad = 0
+    from ..c15reg import EXTRA
+    entries = []
     for e in ctx.known:
-        if e.get("status") != "fixed" or not e.get("witness"):
-            continue
-        path = os.path.join(here, e["witness"])
+        if e.get("status") == "fixed" and e.get("witness"):
+            entries.append((e, e["witness"]))
+            entries += [(e, w) for w in EXTRA.get(e["id"], []) if os.path.basename(w).startswith("C03")]     # second witnesses
+    for (e, wit) in entries:
+        path = os.path.join(here, wit)
         if not os.path.exists(path):
             continue
         text = open(path).read()
@@ -369,7 +365,7 @@ def regression_scripts(ctx, known):
         ctx.count(1, tag="regression-" + e["id"])
         if why:
             bad += 1
-            ctx.violation("regression-" + e["id"],
+            ctx.violation("regression-" + e["id"] + ("" if wit == e["witness"] else "-" + os.path.basename(wit)[:-4]),
                           "# C03: the repaired defect %s (fixed in %s) is back: %s\n# %s\n# transcript:\n%s\n%s--- script\n%s"
                           % (e["id"], e.get("commit", "?"), why, e.get("signature", ""), "\n".join("#   " + l[:300] for l in out if l),
                              "".join(l + "\n" for l in head.split("\n") if l.startswith("expect-last ")), script))
@@ -378,7 +374,7 @@ def regression_scripts(ctx, known):
     return bad
 
 
-PIPE_KF = ("KF-C03-sds-pipe-scan", "KF-C03-pipe-chunk-loop", "KF-C03-svx-backjump")
+PIPE_KF = ("KF-C03-sds-pipe-scan",)
 
 
 def replay_known(ctx):
@@ -391,10 +387,7 @@ def replay_known(ctx):
         text = open(path).read()
         script = text.split("--- script", 1)[1].lstrip("\n")
         lines, rc, err = ("", 0, "") if e["id"] in PIPE_KF else ctx.script(script)
-        if e["id"] == "KF-C03-caf-info-pipe":
-            lines, rc, err = ctx.script(script)
-            active = rc != 0 and "negative-size-param" in err and "caf_read_strings" in err
-        elif e["id"] == "KF-C03-nist-sample-coding":
+        if e["id"] == "KF-C03-nist-sample-coding":
             lines, rc, err = ctx.script(script)
             active = rc != 0 and "stack-buffer-overflow" in err and "nist_read_header" in err
         elif e["id"] in PIPE_KF:
@@ -417,6 +410,8 @@ def run(ctx):
     known = (set(majors) | hmaj, set(subs) | hsub)   # "known" = named in include/sndfile.h (SF_FORMAT_DWVW_N &c. are not in the subtype table)
     if getattr(ctx, "replay", None):
         return replay(ctx, ctx.replay, known)
+    from .. import c03sites
+    site_consts = c03sites.gen_consts(ctx)          # Generated/SitesConsts.lean from this tree, before the Lean stage
     failed = ctx.lean_stage(modules_for("C03"))
     found_input = False
 
@@ -426,6 +421,11 @@ def run(ctx):
     from . import c03ties
     tie_problems = c03ties.run_ties(ctx, c)
     for (name, text, has_input) in tie_problems:
+        if has_input:
+            found_input = True
+        ctx.violation(name, text, no_input=not has_input)
+
+    for (name, text, has_input) in c03sites.run(ctx, site_consts):
         if has_input:
             found_input = True
         ctx.violation(name, text, no_input=not has_input)
@@ -479,15 +479,6 @@ def run(ctx):
     ctx.notes["fuzz_known_finding_hits_sds_pipe"] = len(fz.sds_hits)
     if fz.sds_hits and not kf_active.get("KF-C03-sds-pipe-scan"):
         fz.failures = fz.sds_hits[:2] + fz.failures
-    for kid, hits in fz.extra_hits.items():
-        ctx.notes["fuzz_known_finding_hits_" + kid] = len(hits)
-        if not kf_active.get(kid):
-            fz.failures = hits[:2] + fz.failures
-        elif kid == "KF-C03-caf-info-pipe":
-            for f in hits[:3]:
-                lines, rc, err = ctx.script(script_text(f[4], f[5][1:]))
-                if not ("negative-size-param" in err and "caf_read_strings" in err):
-                    fz.failures.insert(0, f)
     ctx.notes["fuzz_known_finding_hits_nist_coding"] = len(fz.nist_hits)
     if fz.nist_hits:
         if not kf_active.get("KF-C03-nist-sample-coding"):
@@ -497,9 +488,6 @@ def run(ctx):
                 lines, rc, err = ctx.script(script_text(f[4], f[5][1:]))
                 if rc != 0 and not ("nist_read_header" in err and ("stack-buffer-overflow" in err or "stack-buffer-underflow" in err)):
                     fz.failures.insert(0, f)
-    ctx.notes["fuzz_known_finding_hits_svx_pipe"] = len(fz.svx_hits)
-    if fz.svx_hits and not kf_active.get("KF-C03-pipe-chunk-loop"):
-        fz.failures = fz.svx_hits[:2] + fz.failures
     seen = set()
     for f in fz.failures:
         key = (fz.seeds[f[1]][0] & 0x0FFF0000, f[6][1].split(" ")[0])
